@@ -22,6 +22,7 @@ global size_of usize == 8;
 //@include prelude/c13left_std.rs
 //@include prelude/wm_more_std.rs
 //@include prelude/map_ctor_std.rs
+//@include prelude/dg.rs
 
 //@import units/inc/map_core.inc.rs
 
